@@ -396,6 +396,78 @@ def check_fock(n, hist, pure, res, c=CUT):
                     res.violation(f"C06|homodyne|conditional-state|select|{kind}", f"homodyne(phi={phi:.3g}, select={sel}) on mode {mode} of {htag(hist)}: Fock post-state differs from the projection on the quadrature eigenstate by {np.max(np.abs(got / gt - post.rho / tr)):.3g}", case)
 
 
+def check_fock_homodyne_sampled(n, hist, pure, res, num_bins, xmax=10.0):
+    """sampled homodyne on the Fock simulator: the probability vector handed to the random source must be the Born
+    density of x_phi on the documented grid linspace(-max, max, num_bins); every answered grid point is returned and the
+    rest is conditioned on it"""
+    kind = "fock_pure" if pure else "fock_mixed"
+    c = CUT
+    b0 = make_state(kind, n, hist, c)
+    rho0 = physics.Obs(b0, kind, n, c).rho
+    f0 = fr.FState(n, c, rho0 / np.trace(rho0).real)
+    grid = np.linspace(-xmax, xmax, num_bins)
+    # psi[n, k] = <n|x_k>
+    y = grid / math.sqrt(2.0)
+    psi = np.zeros((c, num_bins))
+    psi[0] = (1 / (math.pi * 2.0)) ** 0.25 * np.exp(-y * y / 2)
+    if c > 1:
+        psi[1] = math.sqrt(2) * y * psi[0]
+    for k in range(2, c):
+        psi[k] = math.sqrt(2 / k) * y * psi[k - 1] - math.sqrt((k - 1) / k) * psi[k - 2]
+    for mode in range(n):
+        red = f0.reduced([mode])
+        for phi in PHIS[:3]:
+            case = {"kind": kind, "n": n, "hist": [[l, list(m)] for l, m in hist], "meas": "homodyne-sampled", "phi": phi, "mode": mode, "num_bins": num_bins}
+            bra = psi * np.exp(-1j * phi * np.arange(c))[:, None]
+            dens = np.real(np.einsum("nk,nm,mk->k", bra, red, bra.conj()))
+            dens = dens / dens.sum()
+            picks = sorted({int(np.argmax(dens)), int(np.searchsorted(grid, 0.3)), int(np.searchsorted(grid, -0.5))})
+
+            def menu(fn, a):
+                if fn == "multinomial":
+                    outs = []
+                    for i in picks:
+                        o = np.zeros(len(a["pvals"]), dtype=int)
+                        if i < len(o):
+                            o[i] = 1
+                            outs.append(o)
+                    return outs
+                return default_menu(fn, a)
+
+            for alt in range(len(picks)):
+                res.n += 1
+                ch = Chooser([alt], menu)
+                err = None
+                with ch:
+                    b = make_state(kind, n, hist, c)
+                    try:
+                        val = apply_meas(b, ops.MeasureHomodyne(phi), [mode], num_bins=num_bins, max=xmax)
+                    except Exception as e:  # noqa: BLE001
+                        err = e
+                if err is not None:
+                    res.violation(f"C06|homodyne|raises|{type(err).__name__}|{kind}", f"sampled homodyne(phi={phi:.3g}) on mode {mode} of {htag(hist)} raised {err!r}", case)
+                    break
+                d = [x for x in ch.draws if x.fn == "multinomial"]
+                if len(d) != 1 or d[0].args["n"] != 1:
+                    res.violation(f"C06|homodyne|draws|{kind}", f"sampled Fock homodyne used {len(d)} multinomial draws", case)
+                    break
+                pv = np.asarray(d[0].args["pvals"], dtype=float)
+                if pv.shape != dens.shape or np.max(np.abs(pv - dens)) > 1e-9:
+                    dd = np.max(np.abs(pv - dens)) if pv.shape == dens.shape else "shape"
+                    res.violation(f"C06|homodyne|born-distribution|{kind}", f"sampled homodyne(phi={phi:.3g}) on mode {mode} of {htag(hist)}: the distribution over the {num_bins}-point grid differs from the Born density of x_phi by {dd}", case)
+                    break
+                x = float(grid[picks[alt]])
+                if abs(float(np.ravel(val)[0]) - x) > 1e-12:
+                    res.violation(f"C06|homodyne|returned-value|{kind}", f"sampled homodyne drew grid point {x}, returned {np.ravel(val).tolist()}", case)
+                got = physics.Obs(b, kind, n, c).rho
+                Pm = np.zeros((c, c), dtype=complex)
+                Pm[0, :] = hermite_fn(x, c) * np.exp(-1j * phi * np.arange(c))
+                post = f0.copy().gate(Pm, [mode])
+                tr, gt = post.trace(), np.trace(got).real
+                if tr > 1e-12 and gt > 1e-12 and np.max(np.abs(got / gt - post.rho / tr)) > 1e-6:
+                    res.violation(f"C06|homodyne|conditional-state|sampled|{kind}", f"sampled homodyne(phi={phi:.3g}) on mode {mode} of {htag(hist)} with outcome {x:.4g}: post-state differs from the projection on the quadrature eigenstate by {np.max(np.abs(got / gt - post.rho / tr)):.3g}", dict(case, answer=alt))
+
+
 # ----------------------------------------------------------------------------- engine-level sample collation
 def check_collation(n, res):
     for k in range(1, n + 1):
@@ -442,6 +514,10 @@ def work(task):
             check_gauss_counting(n, hist, res)
         elif what == "bthr":
             check_bosonic_threshold(n, hist, res)
+        elif what == "fhom":
+            check_fock_homodyne_sampled(n, hist[0], kind == "fock_pure", res, hist[1])
+            res.nt += res.n - n0
+            continue
         elif what == "fock":
             check_fock(n, hist, kind == "fock_pure", res, CUT if n == 2 else CUT3)
         if hist:
@@ -471,6 +547,11 @@ def run(ctx):
     for kind in ("fock_pure", "fock_mixed"):
         for i in range(0, len(hs), ch):
             tasks.append(("fock", kind, 2, hs[i : i + ch]))
+    # sampled homodyne on the Fock simulator: small grid for every state of the pool, the default 100000-point grid once
+    for kind in ("fock_pure", "fock_mixed"):
+        for i in range(0, len(hs), 2):
+            tasks.append(("fhom", kind, 2, [(h, 2001) for h in hs[i : i + 2]]))
+        tasks.append(("fhom", kind, 2, [(hs[len(hs) // 2], 100000)]))
     # three modes on the Fock simulator (every ordered subset incl. the cyclic orders), smaller cutoff
     hs = pool(3, SMALL3, 1)
     states += len(hs)
@@ -501,7 +582,9 @@ def replay(case):
         return [(s, w) for s, w, c in res.viol if c["modes"] == case["modes"] and c["split"] == case["split"]]
     hist = tuple((l, tuple(m)) for l, m in case["hist"])
     kind, n = case["kind"], case["n"]
-    if kind.startswith("fock"):
+    if kind.startswith("fock") and case["meas"] == "homodyne-sampled":
+        check_fock_homodyne_sampled(n, hist, kind == "fock_pure", res, case["num_bins"])
+    elif kind.startswith("fock"):
         check_fock(n, hist, kind == "fock_pure", res, CUT if n == 2 else CUT3)
     elif kind == "bosonic" and case["meas"] == "threshold":
         check_bosonic_threshold(n, hist, res)
